@@ -10,7 +10,7 @@ def run(spec):
     mod = importlib.import_module(spec["module"])
     from vf.bmc import replay
     return replay.run_replay(mod.make, spec["cfg"], spec["schedule"], spec.get("params") or {},
-                             "deadlock" if spec["query"] == "deadlock" else "assert")
+                             spec["query"] if spec["query"] in ("deadlock", "witness") else "assert", faults=spec.get("faults"))
 
 
 def main(spec=None):
